@@ -99,6 +99,7 @@ def Include(e, with_context=True, ignore_missing=False): return {"k": "include",
 def Import(e, target, with_context=False): return {"k": "import", "e": e, "target": target, "with_context": with_context}
 def FromImport(e, names, with_context=False):
     return {"k": "fromimport", "e": e, "names": [{"n": n, "as": a} for n, a in names], "with_context": with_context}
+def Do(e): return {"k": "do", "e": e}
 BREAK = {"k": "break"}
 CONTINUE = {"k": "continue"}
 
@@ -298,6 +299,7 @@ def us(stmts, names=None, syn=None):
         elif k == "fromimport":
             ns = ", ".join(n["n"] if n["n"] == n["as"] else f"{n['n']} as {R(n['as'])}" for n in st["names"])
             out.append(T(f"from {X(st['e'])} import {ns}" + (" with context" if st["with_context"] else " without context")))
+        elif k == "do": out.append(T("do " + X(st["e"])))
         elif k == "break": out.append(T("break"))
         elif k == "continue": out.append(T("continue"))
         else: raise ValueError(k)
@@ -590,7 +592,7 @@ def _level(stmts, sym):
             for a in st.get("args", []): _expr_loads(a, sym)
         elif k == "autoescape":
             _expr_loads(st["e"], sym); _level(st["body"], sym)
-        elif k in ("extends", "include"): _expr_loads(st["e"], sym)
+        elif k in ("extends", "include", "do"): _expr_loads(st["e"], sym)
         elif k == "import":
             _expr_loads(st["e"], sym); sym.store(st["target"])
         elif k == "fromimport":
